@@ -14,6 +14,7 @@ thread_local! {
     static SUSPEND: Cell<u32> = const { Cell::new(0) };
     static ALLOCS: Cell<u64> = const { Cell::new(0) };
 }
+pub static TRAP: AtomicBool = AtomicBool::new(false);
 pub struct Counting;
 unsafe impl GlobalAlloc for Counting {
     unsafe fn alloc(&self, l: Layout) -> *mut u8 {
@@ -37,6 +38,12 @@ fn count() {
     let _ = IN_CRATE.try_with(|c| {
         if c.get() > 0 && SUSPEND.with(|s| s.get()) == 0 {
             ALLOCS.with(|a| a.set(a.get() + 1));
+            if TRAP.load(Ordering::Relaxed) {
+                // debugging aid: show who allocates inside the crate (FBV_TRAP_ALLOC=1)
+                SUSPEND.with(|s| s.set(s.get() + 1));
+                eprintln!("ALLOC inside crate:\n{}", std::backtrace::Backtrace::force_capture());
+                SUSPEND.with(|s| s.set(s.get() - 1));
+            }
         }
     });
 }
@@ -138,6 +145,8 @@ pub struct World {
 pub static WORLD: Mutex<Option<World>> = Mutex::new(None);
 pub static HOOKS_ON: AtomicBool = AtomicBool::new(false);
 static SEQ: AtomicU64 = AtomicU64::new(0);
+pub static TW_CLONES: std::sync::atomic::AtomicI64 = std::sync::atomic::AtomicI64::new(0);
+pub static TW_DROPS: std::sync::atomic::AtomicI64 = std::sync::atomic::AtomicI64::new(0);
 
 pub fn with<R>(f: impl FnOnce(&mut World) -> R) -> R {
     let mut g = WORLD.lock().unwrap_or_else(|e| e.into_inner());
@@ -173,6 +182,8 @@ pub fn reset_world(hooklog: bool) {
         mute: false,
     });
     SEQ.store(0, Ordering::SeqCst);
+    TW_CLONES.store(0, Ordering::SeqCst);
+    TW_DROPS.store(0, Ordering::SeqCst);
 }
 
 pub fn ev(line: String) {
@@ -411,7 +422,7 @@ static TW_VTABLE: RawWakerVTable = RawWakerVTable::new(tw_clone, tw_wake, tw_wak
 unsafe fn tw_clone(p: *const ()) -> RawWaker {
     let _s = Suspend::new();
     crate::gate::sync_cb("tw.clone");
-    with(|w| w.tw_clones += 1);
+    TW_CLONES.fetch_add(1, Ordering::SeqCst);
     RawWaker::new(p, &TW_VTABLE)
 }
 unsafe fn tw_wake(p: *const ()) {
@@ -426,11 +437,11 @@ unsafe fn tw_wake_by_ref(p: *const ()) {
 unsafe fn tw_drop(_p: *const ()) {
     let _s = Suspend::new();
     crate::gate::sync_cb("tw.drop");
-    with(|w| w.tw_drops += 1);
+    TW_DROPS.fetch_add(1, Ordering::SeqCst);
 }
 /// the task waker number `w` (>= 1). No allocation; distinct numbers are distinct for `will_wake`.
 pub fn task_waker(w: u32) -> Waker {
-    with(|x| x.tw_clones += 1);
+    TW_CLONES.fetch_add(1, Ordering::SeqCst);
     unsafe { Waker::from_raw(RawWaker::new(w as usize as *const (), &TW_VTABLE)) }
 }
 
